@@ -257,10 +257,23 @@ partial def judgeLoop (prop : String) (h : IO.FS.Stream) (out : IO.FS.Stream) (s
   | none => pure ()
   judgeLoop prop h out s'
 
+/-- translator round trip: print the regenerated table in the format of the implementation's dump -/
+def dumpTable (T : SmackTbl) (nrows : Nat) : List String :=
+  let cols := 2 ^ T.rowShift
+  (List.range nrows).map (fun r =>
+    "row " ++ toString r ++ String.join ((List.range cols).map (fun c => " " ++ toString (T.trans (r * cols + c))))) ++
+  (List.range nrows).map (fun r =>
+    "match " ++ toString r ++ " " ++ toString (T.cnt r) ++ String.join ((T.ids r).map (fun i => " " ++ toString i))) ++
+  ["char_to_symbol" ++ String.join ((List.range 258).map (fun c => " " ++ toString (T.c2s c)))]
+
 def main (args : List String) : IO UInt32 := do
   let stdin ← IO.getStdin
   let stdout ← IO.getStdout
   match args with
   | ["model"] => modelLoop stdin stdout {}; return 0
   | ["judge", prop] => judgeLoop prop stdin stdout {}; return 0
+  | ["dump", which] =>
+    let ls := if which == "http" then dumpTable httpTbl Gen.HttpSmack.nrows else dumpTable protoTbl Gen.ProtoSmack.nrows
+    for l in ls do IO.println l
+    return 0
   | _ => IO.eprintln "usage: mdriver model"; return 2
